@@ -65,7 +65,9 @@ fn abs_doc_extra(k: usize, style: Style) -> FileSpec {
     let mut sections = vec![];
     let mut trailer = Dictionary::new();
     match k {
-        16 => {
+        16 | 24 => {
+            // (24: the same objects stored plainly, so that the cross-reference stream holds 300 type-1 rows with
+            // offsets up to ~0x18000 - large bytes in neighbouring rows, which predictor arithmetic must not wrap)
             // 300 hex strings of 150 pseudo-random bytes each (xorshift, fixed seed): stored in one object
             // stream the Flate-compressed container exceeds 32 KiB (internal buffer sizes of inflaters)
             let mut objects: BTreeMap<ObjectId, Object> = BTreeMap::new();
@@ -82,6 +84,23 @@ fn abs_doc_extra(k: usize, style: Style) -> FileSpec {
             }
             objects.insert((301, 0), Object::Dictionary(dict(vec![("Type", name("Catalog")), ("First", Object::Reference((1, 0))), ("Last", Object::Reference((300, 0)))])));
             trailer.set("Root", Object::Reference((301, 0)));
+            sections.push(Section { objects, trailer: trailer.clone(), objstm: Some(if k == 16 { 1 } else { 0 }), omit_xref: vec![], extra_members: vec![] });
+        }
+        19..=23 => {
+            // the highest-numbered (hence, by default, LAST) member of the object stream is a bare keyword,
+            // an integer, a name: tokens that end only where the data end
+            let last = match k {
+                19 => Object::Boolean(true),
+                20 => Object::Boolean(false),
+                21 => Object::Null,
+                22 => Object::Integer(42),
+                _ => name("Last"),
+            };
+            let mut objects: BTreeMap<ObjectId, Object> = BTreeMap::new();
+            objects.insert((1, 0), Object::Dictionary(dict(vec![("Type", name("Catalog")), ("K", Object::Reference((3, 0)))])));
+            objects.insert((2, 0), Object::Array(vec![Object::Null, Object::Boolean(true), Object::Integer(1)]));
+            objects.insert((3, 0), last);
+            trailer.set("Root", Object::Reference((1, 0)));
             sections.push(Section { objects, trailer: trailer.clone(), objstm: Some(1), omit_xref: vec![], extra_members: vec![] });
         }
         _ => {
@@ -115,7 +134,7 @@ fn abs_doc_extra(k: usize, style: Style) -> FileSpec {
             }
         }
     }
-    FileSpec { version: if k == 16 { "1.6".into() } else { "1.5".into() }, mark: vec![0xe2, 0xe3, 0xcf, 0xd3], style, sections, helper_base: None }
+    FileSpec { version: if k == 16 || k == 24 { "1.6".into() } else { "1.5".into() }, mark: vec![0xe2, 0xe3, 0xcf, 0xd3], style, sections, helper_base: None }
 }
 
 pub fn abs_doc(k: usize, style: Style) -> FileSpec {
